@@ -74,6 +74,12 @@ fn unit_of(kind: u8, i: usize) -> &'static str {
 	if kind >= MIXED { UNITS[i % UNITS.len()].1 } else { UNITS[kind as usize].1 }
 }
 
+/// JSON-encoded size of unit `i` of a class (steering only; the oracle serialises the whole payload with serde_json).
+fn unit_cost(kind: u8, i: usize) -> usize {
+	const COST: [usize; 11] = [1, 2, 2, 6, 2, 3, 4, 2, 6, 1, 3];
+	if kind >= MIXED { COST[i % UNITS.len()] } else { COST[kind as usize] }
+}
+
 fn pay_string(kind: u8, units: u32, fill: u32) -> String {
 	let mut s = String::with_capacity(units as usize * 4 + fill as usize);
 	for i in 0..units as usize {
@@ -277,13 +283,13 @@ fn judge_single(c: &Call, limit: u32, replies: &[Vec<u8>], invocations: Option<u
 	let class = class_single(c, limit);
 	let mut out = Judged { violations: Vec::new(), accepted_text: None, replaced: false };
 	let exp = expected_single(c);
-	let witness = json!({
+	let witness = || json!({
 		"case": case, "via": via, "limit": limit, "request": cut(request_text(c).as_bytes()),
 		"expected_len": exp.as_ref().map(|e| e.len()), "expected": exp.as_ref().map(|e| cut(e.as_bytes())),
 		"replies": replies.iter().map(|r| cut(r)).collect::<Vec<_>>(), "reply_lens": replies.iter().map(|r| r.len()).collect::<Vec<_>>(),
 		"handler_invocations": invocations,
 	});
-	let mut v = |kind: &str, detail: String| out.violations.push(Violation::new(format!("{kind}/{class}"), format!("[{via}] {detail}"), witness.clone()));
+	let mut v = |kind: &str, detail: String| out.violations.push(Violation::new(format!("{kind}/{class}"), format!("[{via}] {detail}"), witness()));
 
 	// acceptance does not depend on the response limit: a registered method runs exactly once, whatever the limit
 	if let Some(n) = invocations {
@@ -292,7 +298,7 @@ fn judge_single(c: &Call, limit: u32, replies: &[Vec<u8>], invocations: Option<u
 			v("handler-invocations", format!("handler ran {n} time(s), expected {want}"));
 		}
 	}
-	let Some(exp) = exp else {
+	let Some(exp) = exp.as_ref() else {
 		if !replies.is_empty() {
 			v("notification-answered", format!("{} reply(ies) to a notification", replies.len()));
 		}
@@ -376,12 +382,12 @@ fn judge_batch(
 	let array = format!("[{}]", entry_texts.join(","));
 	let class = class_batch(array.len(), limit, any_replaced);
 	let vs = std::cell::RefCell::new(Vec::new());
-	let witness = json!({
+	let witness = || json!({
 		"case": case, "via": via, "limit": limit, "expected_array_len": array.len(), "expected_array": cut(array.as_bytes()),
 		"replies": replies.iter().map(|r| cut(r)).collect::<Vec<_>>(), "reply_lens": replies.iter().map(|r| r.len()).collect::<Vec<_>>(),
 		"handler_invocations": invocations.map(|x| x.0),
 	});
-	let v = |kind: &str, detail: String| vs.borrow_mut().push(Violation::new(format!("{kind}/{class}"), format!("[{via}] {detail}"), witness.clone()));
+	let v = |kind: &str, detail: String| vs.borrow_mut().push(Violation::new(format!("{kind}/{class}"), format!("[{via}] {detail}"), witness()));
 	let fits = array.len() <= limit as usize;
 	if let Some((n, n_calls)) = invocations {
 		// a refused batch may stop early; an answered batch ran every call exactly once
@@ -503,7 +509,7 @@ fn tune_call(r: &mut Rng, id: (String, String), flavor: u8, is_err: bool, want: 
 	let mut used = 0usize;
 	let mut units = 0u32;
 	loop {
-		let cost = enc(&Value::String(unit_of(kind, units as usize).to_string())).len() - 2;
+		let cost = unit_cost(kind, units as usize);
 		if used + cost > budget {
 			break;
 		}
@@ -1324,7 +1330,7 @@ fn main() {
 		let mut ev = Evidence::new("");
 		let mut v = Vec::new();
 		// small limits keep the payloads (and Miri's run time) small
-		direct_workload(ctx.seed, n, &[1, 10, 50, 63, 64, 100, 127, 128, 1000], &mut ev, &mut v);
+		direct_workload(ctx.seed, n, &[1, 10, 50, 63, 64, 100, 127, 128], &mut ev, &mut v);
 		let sigs: Vec<String> = v.iter().map(|x| x.signature.clone()).collect();
 		println!(
 			"SUBRESULT {}",
